@@ -39,8 +39,8 @@ package peering
 //@   callsite AEAD.Open in-place [C05]: base(arg0) == base(f) && off(arg0) == off(f) + 12 && len(arg0) == 0
 //@   callsite AEAD.Open no-associated-data [C05]: len(arg3) == 0
 //@   callsite state.EncryptionSession.Check sequence-checked-after-authentication [C03,C05]: aead_ok
-// (The next clause FAILS on the current code: EncryptionSession.In rolls the incoming key over on the claimed,
-// not yet authenticated sequence number - see /verif/KNOWN_FINDINGS.txt, "key rollover before authentication".)
+// (A frame that is refused must not desynchronise the session: this failed before the rollover was made
+// transactional - see /verif/KNOWN_FINDINGS.txt, "key rollover before authentication", fixed.)
 //@   ensures unauthenticated-frames-never-move-the-receive-key [C05]: !aead_ok ==> encrypt.inEpoch == old(encrypt.inEpoch)
 //@   update when result == nil: encrypt.lastUnsealed = base(f)
 //@   update when result == nil: encrypt.lastUnsealedLen = len(f)
